@@ -832,6 +832,27 @@ func (x *Exec) stub(st *State, f *Frame, in *ssa.Call, fn *ssa.Function, name st
 	case "(*sync.Mutex).TryLock":
 		x.ret(f, in, W{d.Bool(true)})
 		return true
+	case "math/bits.Len64", "math/bits.Len32", "math/bits.Len", "math/bits.LeadingZeros64", "math/bits.LeadingZeros32", "math/bits.TrailingZeros64", "math/bits.TrailingZeros32":
+		// table-driven in the standard library (symbolic index): position of the highest / lowest set bit as an ite chain
+		v := x.word(args[0])
+		w := v.W
+		one := d.ConstI(1, 1)
+		res := d.ConstI(64, 0)
+		if strings.HasPrefix(name, "math/bits.TrailingZeros") {
+			res = d.ConstI(64, int64(w))
+			for i := w - 1; i >= 0; i-- {
+				res = d.Ite(d.Cmp("eq", d.Extract(v, i, 1), one), d.ConstI(64, int64(i)), res)
+			}
+		} else {
+			for i := 0; i < w; i++ {
+				res = d.Ite(d.Cmp("eq", d.Extract(v, i, 1), one), d.ConstI(64, int64(i+1)), res)
+			}
+			if strings.HasPrefix(name, "math/bits.LeadingZeros") {
+				res = d.Bin("sub", d.ConstI(64, int64(w)), res)
+			}
+		}
+		x.ret(f, in, W{res})
+		return true
 	case "strconv.Itoa":
 		n := x.word(args[0])
 		if !n.IsConst() {
